@@ -422,6 +422,7 @@ func run(c *core.Ctx) {
 			add("copy-paths4", "StateDB_copy.cfg", false, 0, true, nil)
 			if !flat {
 				add("logs-paths8", "StateDB_logs.cfg", false, 0, true, nil) // the log lists do not depend on the storage mode
+				add("logrev-paths6", "StateDB_logrev.cfg", false, 0, true, nil)
 			}
 			add("life-edges5", "StateDB_life.cfg", false, 0, false, nil)
 			if flat {
@@ -439,6 +440,7 @@ func run(c *core.Ctx) {
 			add("copy-paths4", "StateDB_copy.cfg", false, 0, true, nil)
 			if !flat {
 				add("logs-paths9", "StateDB_logs.cfg", false, 9, true, nil)
+				add("logrev-paths7", "StateDB_logrev.cfg", false, 7, true, nil)
 			}
 			if flat {
 				add("life-paths5", "StateDB_life.cfg", false, 0, true, nil)
